@@ -86,10 +86,30 @@ def tables_from(shape, t):
     return tabs
 
 
+CACHES = []
+
+
 def provider(tab):
+    """Like a rule of a specification, a provider hands out its *cached* Counter (the same object on every call); the
+    rule forms under test must not modify it (checked by `caches_intact`)."""
+    cache = {}
+    CACHES.append((tab, cache))
+
     def f(n):
-        return Counter(tab.get(n, {}))
+        if n not in cache:
+            cache[n] = Counter(tab.get(n, {}))
+        return cache[n]
     return f
+
+
+def caches_intact():
+    for tab, cache in CACHES:
+        for n, got in cache.items():
+            want = tab.get(n, {})
+            for k in set(got) | set(want):
+                if got.get(k, 0) != want.get(k, 0):
+                    return _fail("a rule form modified the terms cached by one of its providers: size %d, %r became %r" % (n, want, dict(got)))
+    return True
 
 
 def mk_class(name, ch):
@@ -293,9 +313,12 @@ def check(t: List[int]) -> bool:
     post: _
     """
     shape = core.SHAPE
+    del CACHES[:]
     if shape["kind"] == "path":
-        return core.final(run_path(shape, t))
-    return core.final(run_config(shape, t))
+        ok = run_path(shape, t)
+    else:
+        ok = run_config(shape, t)
+    return core.final(ok and caches_intact())
 
 
 def check_d(t: List[int]) -> bool:
@@ -309,7 +332,8 @@ def check_d(t: List[int]) -> bool:
     vals = tuple(core.pick(t[i], LO[i], B) for i in range(LEN))
     with core.NoTracing():
         core.tally(vals)
-        return core.final(run_config(shape, list(vals)))
+        del CACHES[:]
+        return core.final(run_config(shape, list(vals)) and caches_intact())
 
 
 # ------------------------------------------------------------------ catalogue
